@@ -454,8 +454,7 @@ def run(ctx):
         # every shape exhaustively to depth ShallowHist; a seed-rotated subset to MaxHist
         var_ = [s for s in deep if s["var"] and s["ar"] >= 2 and s["nres"] >= 1]
         fix_ = [s for s in deep if not s["var"] and s["ar"] >= 2 and s["nres"] >= 1]
-        rest = [s for s in deep]
-        deep = [ctx.rng.choice(var_), ctx.rng.choice(fix_), ctx.rng.choice(rest)]
+        deep = [ctx.rng.choice(var_), ctx.rng.choice(fix_)]
     mc = mc_module("MatryerMockRun", deep)
     stats = {"len": {}, "sample": []}
     d = ctx.mkdir("replay")
